@@ -99,3 +99,75 @@ Fixpoint ir_steps (w : Z) (e : env) (limited : bool) (n : nat) (c : ircfg) : out
 
 Definition ir_machine_run (w : Z) (e : env) (limited : bool) (budget : Z) (n : nat) (p : block) : outcome irst :=
   ir_steps w e limited n {| i_ctl := snd p; i_kont := []; i_st := ir0 budget |}.
+
+(** ** State-repeat certificates of divergence (property C05).
+    Two configurations are equivalent when they agree on everything the future of the run can
+    depend on: control, continuation, tape contents, pointer and the remaining input (all
+    cursors at or beyond the end of the input are equivalent).  The event log and the counters
+    of past events are not compared. *)
+Fixpoint cmd_eqb (a b : cmd) : bool :=
+  match a, b with
+  | Inc, Inc | Dec, Dec | Left, Left | Right, Right | Out, Out | In, In => true
+  | Loop x, Loop y =>
+      (fix leq (x y : list cmd) : bool :=
+         match x, y with
+         | [], [] => true
+         | c :: x', d :: y' => cmd_eqb c d && leq x' y'
+         | _, _ => false
+         end) x y
+  | _, _ => false
+  end.
+
+Fixpoint cmds_eqb (x y : list cmd) : bool :=
+  match x, y with
+  | [], [] => true
+  | c :: x', d :: y' => cmd_eqb c d && cmds_eqb x' y'
+  | _, _ => false
+  end.
+
+Fixpoint kont_eqb (x y : list (list cmd * list cmd)) : bool :=
+  match x, y with
+  | [], [] => true
+  | (a1, b1) :: x', (a2, b2) :: y' => cmds_eqb a1 a2 && cmds_eqb b1 b2 && kont_eqb x' y'
+  | _, _ => false
+  end.
+
+From Coq Require Import FMapPositive.
+Definition tgetp (t : tmap) (p : positive) : Z :=
+  match PositiveMap.find p t with Some v => v | None => 0 end.
+Definition tmap_sub (a b : tmap) : bool :=
+  forallb (fun kv => tgetp b (fst kv) =? snd kv) (PositiveMap.elements a).
+Definition tmap_eqb (a b : tmap) : bool := tmap_sub a b && tmap_sub b a.
+
+Definition eff_in_pos (e : env) (s : bfst) : nat := Nat.min (in_pos (io s)) (length (input e)).
+
+Definition cfg_equiv (e : env) (c1 c2 : bfcfg) : bool :=
+  cmds_eqb (c_ctl c1) (c_ctl c2) && kont_eqb (c_kont c1) (c_kont c2)
+  && tmap_eqb (tape (c_st c1)) (tape (c_st c2)) && (ptr (c_st c1) =? ptr (c_st c2))
+  && Nat.eqb (eff_in_pos e (c_st c1)) (eff_in_pos e (c_st c2)).
+
+(** configuration after exactly [n] steps, if the run has not ended before *)
+Fixpoint bf_cfg_after (w : Z) (e : env) (n : nat) (c : bfcfg) : option bfcfg :=
+  match n with
+  | O => Some c
+  | S n' => match bf_step w e c with
+            | Next c' => bf_cfg_after w e n' c'
+            | Final _ => None
+            end
+  end.
+
+(** [cert_ok i d]: the configurations after [i] and after [i + S d] steps exist and are equivalent.
+    Valid only for fault-free environments (no injected failure). *)
+Definition env_fault_free (e : env) : bool :=
+  negb (in_absent e) && match in_fail_at e with None => true | Some _ => false end
+  && match out_fail_at e with None => true | Some _ => false end.
+
+Definition cert_ok (w : Z) (e : env) (p : list cmd) (i d : nat) : bool :=
+  env_fault_free e &&
+  match bf_cfg_after w e i {| c_ctl := p; c_kont := []; c_st := bf0 |} with
+  | Some ci => match bf_cfg_after w e (S d) ci with
+               | Some cj => cfg_equiv e ci cj
+               | None => false
+               end
+  | None => false
+  end.
